@@ -60,6 +60,7 @@ inductive Kind
   | jsonList (s : Scalar)              -- `List[int]` …  → JSON column
   | ref (target : Name) (opt : Bool)   -- `B`, `Optional[B]`
   | coll (target : Name)               -- `List[B]`
+  | custom (opt : Bool)                -- `P`, `Optional[P]` for a class `P` that is a key of ORMatic's `type_mappings`
   deriving DecidableEq, Repr
 
 structure Field where
@@ -229,6 +230,8 @@ def parseField (m : ClassModel) (c : Class) (f : Field) : List Attr :=
     if mapped m t then
       [⟨f.name, .rel (tableName t) true (some (assocName (tableName c.name) f.name)), false, false, [.typing]⟩]
     else []
+  -- `create_custom_type`: a column of the mapped `TypeDecorator`, `nullable=<is_optional>`
+  | .custom opt => [⟨f.name, .customCol, opt, opt, optMods opt ++ [.customTypes]⟩]
 
 /-- the association table a field creates -/
 def assocOf (q : Quirks) (m : ClassModel) (c : Class) (f : Field) : List Assoc :=
@@ -331,6 +334,7 @@ def FieldMapped (m : ClassModel) (c : Class) (t : Table) (f : Field) : Prop :=
   | .enum opt => ∃ a ∈ t.attrs, a.name = f.name ∧ a.kind = .builtinCol ∧ (opt = true → a.nullable = true)
   | .datetime opt => ∃ a ∈ t.attrs, a.name = f.name ∧ a.kind = .builtinCol ∧ (opt = true → a.nullable = true)
   | .jsonList _ => ∃ a ∈ t.attrs, a.name = f.name ∧ a.kind = .customCol
+  | .custom opt => ∃ a ∈ t.attrs, a.name = f.name ∧ a.kind = .customCol ∧ (opt = true → a.nullable = true)
   | .ref tg opt =>
     mapped m tg = true →
       (∃ a ∈ t.attrs, a.name = f.name ∧ a.kind = .rel (tableName tg) false none) ∧
@@ -488,7 +492,7 @@ def isColumnKind : Kind → Bool
   | _ => true
 
 def optOf : Kind → Bool
-  | .scalar _ o => o | .enum o => o | .datetime o => o | .ref _ o => o | _ => false
+  | .scalar _ o => o | .enum o => o | .datetime o => o | .ref _ o => o | .custom o => o | _ => false
 
 def dao (n : Name) : Name := n ++ ['D', 'A', 'O']
 
